@@ -46,6 +46,8 @@ def cells(arr):
     """rows of an array as lists of integers (raw little-endian bytes of each item)"""
     arr = np.asarray(arr)
     n = len(arr)
+    if n == 0:
+        return []
     flat = np.ascontiguousarray(arr).reshape(n, -1)
     isz = flat.dtype.itemsize
     out = []
